@@ -65,3 +65,12 @@ Print Assumptions C20_vptr_roundtrip.
 Theorem C20_encoders_wf : forall x, wf_bytes (put_uvarint x) = true /\ wf_bytes (be_enc 8 x) = true.
 Proof. intros x. split; [exact (UvarintProofs.put_uvarint_wf x) | exact (BytesProofs.wf_bytes_be_enc 8 x)]. Qed.
 Print Assumptions C20_encoders_wf.
+
+(* the streaming decoder (header.DecodeFrom over a byte reader, however the reader chunks its
+   input) returns the encoded header, the number of bytes it took, and leaves the rest *)
+From Verif Require LogRecord LogProofs.
+Theorem C20_header_reader_roundtrip : forall h rest,
+  h_klen h < two32 -> h_vlen h < two32 -> h_expires h < two64 ->
+  LogRecord.header_read (header_encode h ++ rest) = LogRecord.HOk h (length (header_encode h)) rest.
+Proof. exact LogProofs.header_read_encode. Qed.
+Print Assumptions C20_header_reader_roundtrip.
